@@ -1,27 +1,41 @@
-(* C42 — executable model of pkg/sortition/sortition.go (MonitorPool's first check,
-   checkOperatorStatus, checkRewardsEligibility) and policy.go (join policies).
-   A "world" is what the chain answers during one status check; a history is a list of worlds. *)
-From Coq Require Import List Bool.
+(* C42 — executable model of pkg/sortition/sortition.go (MonitorPool, checkOperatorStatus,
+   checkRewardsEligibility) and policy.go (join policies), plus tbtc's enoughPreParamsInPoolPolicy.
+   A "world" is what the chain and the scripted sub-policies answer during ONE status check (one
+   tick of MonitorPool); a history is a list of worlds. The join policy is ONE object graph that
+   lives through the whole history: the model threads it through the ticks ([tick_st],
+   [history_st]) exactly as MonitorPool hands the same [policy] value to every
+   checkOperatorStatus call; Proofs/C42.v shows that no tick changes it. *)
+From Coq Require Import List Bool ZArith Arith.
 From KV Require Import Common.Verdict.
 Import ListNotations.
 
 Inductive ans := ATrue | AFalse | AErr.          (* a chain query: (true,nil) (false,nil) (_,err) *)
-Inductive tx := Join | Update | Restore.          (* the three state-changing requests *)
+Inductive tx := Join | Update | Restore          (* the three state-changing requests *)
+            | Panic.                           (* the check panicked (never in the model) *)
+
+(* the read-only questions asked during a check, in the order they are asked *)
+Inductive query :=
+| QInPool | QUpToDate | QEligible | QCanRestore | QLocked | QChaosnet | QBeta
+| QAsk (i : nat).         (* ShouldJoin of the i-th scripted sub-policy *)
 
 Record world := {
-  registered : ans;      (* OperatorToStakingProvider: registered flag / error *)
+  registered : ans;      (* OperatorToStakingProvider: registered flag / error (MonitorPool start only) *)
   in_pool : ans; up_to_date : ans; locked : ans;
   eligible : ans; can_restore : ans;
   chaosnet : ans; beta : ans;
-  restore_fails : bool; update_fails : bool; join_fails : bool   (* outcome of the transactions *)
+  restore_fails : bool; update_fails : bool; join_fails : bool;   (* outcome of the transactions *)
+  scripted : list bool;  (* answers of the scripted sub-policies at this tick *)
+  pre_count : Z; pre_size : Z   (* pre-parameters in the pool / configured pool size at this tick *)
 }.
 
 Inductive policy :=
 | PUncond                       (* UnconditionalJoinPolicy *)
 | PBeta                         (* BetaOperatorPolicy *)
-| PConst (b : bool)             (* any other JoinPolicy, answering b *)
+| PScript (i : nat)             (* any other JoinPolicy: answers what the world scripts for it *)
+| PPre                          (* tbtc enoughPreParamsInPoolPolicy *)
 | PConj (ps : list policy).     (* ConjunctionPolicy: all must pass, left to right, short-circuit *)
 
+(* the per-tick pure decision *)
 Fixpoint should_join (w : world) (p : policy) : bool :=
   match p with
   | PUncond => true
@@ -31,10 +45,43 @@ Fixpoint should_join (w : world) (p : policy) : bool :=
       | AFalse => true
       | ATrue => match beta w with ATrue => true | _ => false end
       end
-  | PConst b => b
+  | PScript i => nth i (scripted w) false
+  | PPre => (pre_size w <=? pre_count w)%Z
   | PConj ps =>
       (fix all (l : list policy) : bool :=
          match l with [] => true | q :: t => if should_join w q then all t else false end) ps
+  end.
+
+(* the questions one ShouldJoin call asks *)
+Fixpoint policy_queries (w : world) (p : policy) : list query :=
+  match p with
+  | PUncond => []
+  | PBeta => QChaosnet :: match chaosnet w with ATrue => [QBeta] | _ => [] end
+  | PScript i => [QAsk i]
+  | PPre => []               (* reads the local pre-parameters pool: no chain question *)
+  | PConj ps =>
+      (fix all (l : list policy) : list query :=
+         match l with
+         | [] => []
+         | q :: t => policy_queries w q ++ (if should_join w q then all t else [])
+         end) ps
+  end.
+
+(* ShouldJoin on the policy OBJECT: the answer and the object graph as the call leaves it
+   (ConjunctionPolicy.policies after the loop; the other policies have no mutable field) *)
+Fixpoint should_join_st (w : world) (p : policy) : bool * policy :=
+  match p with
+  | PConj ps =>
+      let '(b, ps') :=
+        (fix all (l : list policy) : bool * list policy :=
+           match l with
+           | [] => (true, [])
+           | q :: t =>
+               let '(bq, q') := should_join_st w q in
+               if bq then let '(bt, t') := all t in (bt, q' :: t') else (false, q' :: t)
+           end) ps in
+      (b, PConj ps')
+  | _ => (should_join w p, p)
   end.
 
 (* checkRewardsEligibility: the transactions it requests *)
@@ -43,6 +90,8 @@ Definition check_rewards (w : world) : list tx :=
   | AFalse => match can_restore w with ATrue => [Restore] | _ => [] end
   | _ => []
   end.
+Definition rewards_queries (w : world) : list query :=
+  QEligible :: match eligible w with AFalse => [QCanRestore] | _ => [] end.
 
 (* checkOperatorStatus: (transactions requested in order, error returned?) *)
 Definition check_status (w : world) (p : policy) : list tx * bool :=
@@ -69,10 +118,55 @@ Definition check_status (w : world) (p : policy) : list tx * bool :=
       end
   end.
 
-(* MonitorPool up to and including its first check: (transactions, MonitorPool returned an error) *)
+(* does this check get as far as asking the join policy? *)
+Definition asks_policy (w : world) : bool :=
+  match in_pool w, up_to_date w, locked w with AFalse, AFalse, AFalse => true | _, _, _ => false end.
+
+(* checkOperatorStatus: the questions asked, in order *)
+Definition check_queries (w : world) (p : policy) : list query :=
+  QInPool ::
+  match in_pool w with
+  | AErr => []
+  | inp =>
+      QUpToDate ::
+      match up_to_date w with
+      | AErr => []
+      | utd =>
+          (match inp with ATrue => rewards_queries w | _ => [] end) ++
+          match utd with
+          | ATrue => []
+          | _ => QLocked :: if asks_policy w then policy_queries w p else []
+          end
+      end
+  end.
+
+(* one tick: what is observable of one checkOperatorStatus call *)
+Definition out := (list tx * bool * list query)%type.
+Definition tick (p : policy) (w : world) : out := (check_status w p, check_queries w p).
+
+(* one tick on the policy object: the observable and the object afterwards *)
+Definition tick_st (p : policy) (w : world) : out * policy :=
+  if asks_policy w then (tick p w, snd (should_join_st w p)) else (tick p w, p).
+
+(* MonitorPool's loop: the same policy object is handed to every tick *)
+Fixpoint history_st (p : policy) (ws : list world) : list out :=
+  match ws with
+  | [] => []
+  | w :: t => let '(o, p') := tick_st p w in o :: history_st p' t
+  end.
+
+(* MonitorPool: registration is resolved once; then the first check and the ticks.
+   (outputs per tick, MonitorPool returned an error) *)
+Definition monitor (reg : ans) (p : policy) (ws : list world) : list out * bool :=
+  match reg with
+  | ATrue => (history_st p ws, false)    (* a failing check is only logged *)
+  | _ => ([], true)
+  end.
+
+(* MonitorPool up to and including its first check *)
 Definition monitor_first (w : world) (p : policy) : list tx * bool :=
   match registered w with
-  | ATrue => (fst (check_status w p), false)   (* a failing check is only logged *)
+  | ATrue => (fst (check_status w p), false)
   | _ => ([], true)
   end.
 
@@ -80,7 +174,14 @@ Definition monitor_first (w : world) (p : policy) : list tx * bool :=
 Definition ans_is (a : ans) (b : bool) : bool :=
   match a, b with ATrue, true | AFalse, false => true | _, _ => false end.
 Definition tx_eqb (a b : tx) : bool :=
-  match a, b with Join, Join | Update, Update | Restore, Restore => true | _, _ => false end.
+  match a, b with Join, Join | Update, Update | Restore, Restore | Panic, Panic => true | _, _ => false end.
+Definition query_eqb (a b : query) : bool :=
+  match a, b with
+  | QInPool, QInPool | QUpToDate, QUpToDate | QEligible, QEligible | QCanRestore, QCanRestore
+  | QLocked, QLocked | QChaosnet, QChaosnet | QBeta, QBeta => true
+  | QAsk i, QAsk j => Nat.eqb i j
+  | _, _ => false
+  end.
 
 Definition permitted (w : world) (p : policy) (t : tx) : bool :=
   match t with
@@ -88,32 +189,68 @@ Definition permitted (w : world) (p : policy) (t : tx) : bool :=
             && should_join w p
   | Update => ans_is (in_pool w) true && ans_is (up_to_date w) false && ans_is (locked w) false
   | Restore => ans_is (can_restore w) true
+  | Panic => true     (* not a request: the property does not speak about it; shows as Mismatch *)
   end.
 
 Definition spec_ok (w : world) (p : policy) (txs : list tx) : bool :=
   forallb (permitted w p) txs.
 
-Fixpoint txs_eqb (a b : list tx) : bool :=
+Fixpoint list_eqb {A} (eqb : A -> A -> bool) (a b : list A) : bool :=
   match a, b with
   | [], [] => true
-  | x :: a', y :: b' => tx_eqb x y && txs_eqb a' b'
+  | x :: a', y :: b' => eqb x y && list_eqb eqb a' b'
+  | _, _ => false
+  end.
+Definition txs_eqb := list_eqb tx_eqb.
+Definition queries_eqb := list_eqb query_eqb.
+
+(* one step of a history: the world of that tick and what the implementation was observed to do.
+   [s_err] is None where the error of the check is not observable (MonitorPool only logs it);
+   [s_allow] is the driver's own evaluation of "every sub-policy says yes at this tick", computed
+   from the script without touching the policy objects. *)
+Record step := { s_world : world; s_txs : list tx; s_queries : list query;
+                 s_err : option bool; s_allow : bool }.
+Record case := { c_registered : ans; c_policy : policy; c_steps : list step; c_monitor_err : bool }.
+
+(* the executable history property: at every tick, every request is permitted by THAT tick's world *)
+Definition step_spec (p : policy) (s : step) : bool := spec_ok (s_world s) p (s_txs s).
+Definition hist_spec (p : policy) (steps : list step) : bool := forallb (step_spec p) steps.
+
+Definition step_agree (o : out) (s : step) : bool :=
+  let '(t, e, q) := o in
+  txs_eqb t (s_txs s) && queries_eqb q (s_queries s) &&
+  match s_err s with Some e' => Bool.eqb e e' | None => true end.
+
+Fixpoint steps_agree (os : list out) (ss : list step) : bool :=
+  match os, ss with
+  | [], [] => true
+  | o :: os', s :: ss' => step_agree o s && steps_agree os' ss'
   | _, _ => false
   end.
 
-(* one step of a history: the world, and what the implementation was observed to do *)
-Record step := { s_world : world; s_txs : list tx; s_err : bool }.
-Record case := { c_policy : policy; c_steps : list step }.
+Definition silent (s : step) : bool :=
+  match s_txs s, s_queries s with [], [] => true | _, _ => false end.
 
-Definition step_spec (p : policy) (s : step) : bool := spec_ok (s_world s) p (s_txs s).
-Definition step_agree (p : policy) (s : step) : bool :=
-  let '(t, e) := monitor_first (s_world s) p in txs_eqb t (s_txs s) && Bool.eqb e (s_err s).
+Definition hist_agree (c : case) : bool :=
+  let '(os, e) := monitor (c_registered c) (c_policy c) (map s_world (c_steps c)) in
+  Bool.eqb e (c_monitor_err c) &&
+  match c_registered c with
+  | ATrue => steps_agree os (c_steps c)
+  | _ => forallb silent (c_steps c)     (* MonitorPool gave up before any check *)
+  end.
+
+(* the driver and the model must mean the same thing by "the policy allows joining at this tick" *)
+Definition allow_consistent (p : policy) (s : step) : bool :=
+  Bool.eqb (should_join (s_world s) p) (s_allow s).
 
 Definition judge (c : case) : verdict :=
   match c_steps c with
   | [] => BadCase
-  | _ => decide (forallb (step_spec (c_policy c)) (c_steps c))
-                (forallb (step_agree (c_policy c)) (c_steps c))
+  | _ =>
+      if forallb (allow_consistent (c_policy c)) (c_steps c)
+      then decide (hist_spec (c_policy c) (c_steps c)) (hist_agree c)
+      else BadCase
   end.
 
-Definition explain (c : case) : list (list tx * bool) :=
-  map (fun s => monitor_first (s_world s) (c_policy c)) (c_steps c).
+Definition explain (c : case) : list out * bool :=
+  monitor (c_registered c) (c_policy c) (map s_world (c_steps c)).
